@@ -117,7 +117,7 @@ def first_diff_world(script, impl, model):
 
 INTERESTING = {0x12: "ima", 0x13: "ms", 0x20: "gsm610", 0x21: "vox", 0x22: "nms16", 0x23: "nms24", 0x24: "nms32", 0x30: "g721", 0x31: "g723_24",
                0x32: "g723_40", 0x40: "dwvw12", 0x41: "dwvw16", 0x42: "dwvw24", 0x70: "alac16", 0x71: "alac20", 0x72: "alac24", 0x73: "alac32",
-               0x06: "float", 0x07: "double", 0x50: "dpcm8", 0x51: "dpcm16"}
+               0x06: "float", 0x07: "double", 0x50: "dpcm8", 0x51: "dpcm16", 0x10: "ulaw", 0x11: "alaw"}
 
 
 def is_interesting(f):
@@ -253,29 +253,39 @@ def make_groups(ctx, wls, merges_per_group):
             chunk.append(rng.choice(wls))
         lens = [len(w.lines) for w in chunk]
         hows = ["roundrobin"] + [rng.choice(["uniform", "bursts", "bursts", "reverse"]) for _ in range(merges_per_group - 1)]
-        for how in hows:
-            groups.append(Group("g%d-%s" % (gi, how), chunk, WC.merge_order(rng, lens, how), how))
+        for mi, how in enumerate(hows):
+            groups.append(Group("g%d-m%d-%s" % (gi, mi, how), chunk, WC.merge_order(rng, lens, how), how))
         gi += 1
     return groups
 
 
-def twin_groups(ctx, fs, n):
-    """two (or three) live handles of the SAME encoding with different data: where a codec keeping stream state in a static would show"""
+def rep_formats(ctx, fs, by_codec=False):
+    """one format (random endian variant, random container when by_codec) per (container, encoding) of the interesting set:
+    block codecs, float/double (PEAK), G.711 tables, DPCM, SDS, PAF"""
+    rng = ctx.rng
+    reps = {}
+    for f in fs:
+        if is_interesting(f):
+            reps.setdefault(f.codec if by_codec and f.major not in (0x11, 0x05) else (f.major, f.codec), []).append(f)
+    return [rng.choice(v) for k, v in sorted(reps.items(), key=lambda kv: str(kv[0]))]
+
+
+def twin_groups(ctx, fs, rounds):
+    """two (or three) live handles of the SAME encoding with different data: where a codec keeping stream state in a static
+    would show.  Every (container, encoding) of the interesting set, every run."""
     rng = ctx.rng
     groups = []
-    pick = [f for f in fs if is_interesting(f)]
-    rng.shuffle(pick)
-    for gi, f in enumerate(pick[:n]):
-        ch = min(f.maxch, rng.choice([1, 2]))
-        m = rng.choice([2, 2, 3])
-        chunk = [Workload(f, ch, WC.gen_workload(rng, f, ch, kind=rng.choice(["w", "rs"]), nops=6)) for _ in range(m)]
-        lens = [len(w.lines) for w in chunk]
-        for how in ("roundrobin", "bursts"):
-            groups.append(Group("twin%d-%s-%s" % (gi, f.name, how), chunk, WC.merge_order(rng, lens, how), how))
+    gi = 0
+    for _ in range(rounds):
+        for f in rep_formats(ctx, fs):
+            ch = min(f.maxch, rng.choice([1, 2]))
+            m = rng.choice([2, 2, 3])
+            chunk = [Workload(f, ch, WC.gen_workload(rng, f, ch, kind=rng.choice(["w", "rs"]), nops=6)) for _ in range(m)]
+            lens = [len(w.lines) for w in chunk]
+            for how in ("roundrobin", rng.choice(["bursts", "uniform"])):
+                groups.append(Group("twin%d-%s-%s" % (gi, f.name, how), chunk, WC.merge_order(rng, lens, how), how))
+            gi += 1
     return groups
-
-
-SHORT_OPS = 4
 
 
 def short_script(rng, f, ch, filehex=None):
@@ -420,12 +430,13 @@ def b_campaign(ctx, env):
     stats["solo_dies"] = len(dying)
     ctx.notes["B_workloads_dying_alone"] = sorted(set("%s c%d" % (w.fmt.name, w.ch) for w in dying))[:20]
     wls = [w for w in wls if w not in dying]
-    groups = make_groups(ctx, wls, 2 if quick else 4) + twin_groups(ctx, fs, 24 if quick else 120)
+    groups = make_groups(ctx, wls, 2 if quick else 4) + twin_groups(ctx, fs, 1 if quick else 4)
     solo_scripts = {}
     for g in groups:
         for k, w in enumerate(g.wls):
             solo_scripts[(w.uid, k)] = ("solo-%d-%d" % (w.uid, k), "\n".join(g.parts[k]) + "\n")
     batch = list({v[0]: v for v in solo_scripts.values()}.values()) + [(g.name, g.text()) for g in groups]
+    assert len(set(n for n, _ in batch)) == len(batch), "script names must be unique"
     out = ctx.batch(batch, clean=True, env=env, workers=4)
     for g in groups:
         mo = out.get(g.name, [])
@@ -452,15 +463,19 @@ def b_campaign(ctx, env):
                 findings.append(dict(kind="group", name=g.name, k=k, fmt=w.fmt, group=g, diff=d, dead=dead(mo), solo=g.parts[k], merged=g.merged,
                                      owners=g.owners, solo_out=so, merged_out=mo))
     # ---- B2: all merges of two short scripts ----
-    st2 = run_all_merges(ctx, env, fs, 5 if quick else 40, findings)
+    st2 = run_all_merges(ctx, env, fs, 8 if quick else 60, findings)
     stats["allmerge_pairs"], stats["allmerge_scripts"] = st2["pairs"], st2["merges"]
     stats["comparisons"] += st2["comparisons"]
     # ---- B3: earlier use of the library in the same process ----
     pre, ncodecs = prelude_script(ctx, fs, 1)
     stats["prelude_lines"], stats["prelude_formats"] = len(pre), ncodecs
-    picks = [w for w in wls if is_interesting(w.fmt)]
-    rng.shuffle(picks)
-    picks = picks[:(16 if quick else 80)] + rng.sample(wls, min(len(wls), 8 if quick else 40))
+    # one workload per interesting encoding (so that the prelude has used that very codec before), plus a few others
+    picks = []
+    for _ in range(1 if quick else 3):
+        for f in rep_formats(ctx, fs, by_codec=True):
+            ch = min(f.maxch, rng.choice([1, 2]))
+            picks.append(Workload(f, ch, WC.gen_workload(rng, f, ch, kind=rng.choice(["w", "rs"]), nops=6)))
+    picks += rng.sample(wls, min(len(wls), 6 if quick else 40))
     scripts = []
     for i, w in enumerate(picks):
         mine = w.renamed(0)
